@@ -21,11 +21,17 @@
 (*   ts     its (claimed) timestamp                                        *)
 (*   kind   "auth"    AuthenticatedTransportInfo (signed)                  *)
 (*          "trusted" TrustedTransportInfo (unsigned, local side channel)  *)
+(*   addrs  number of transport addresses it carries: 0 ("I am not         *)
+(*          reachable", a legitimate announcement) or 1                    *)
 (*   forge  "none"          genuine                                        *)
+(*          "bad_sig"       auth: signature bytes damaged                  *)
 (*          "wrong_signer"  auth: signed by another node's key             *)
 (*          "tampered_ts"   auth: timestamp changed after signing          *)
-(*          "tampered_addr" auth: addresses changed after signing          *)
+(*          "addr_removed"  auth: signed with an address, list emptied     *)
+(*          "addr_added"    auth: signed without, an address appended      *)
+(*          "addr_changed"  auth: the address replaced after signing       *)
 (*          "id_mismatch"   trusted: an address names another node         *)
+(* Which (kind, forge, addrs) combinations exist: WellFormed.              *)
 (***************************************************************************)
 EXTENDS Integers, FiniteSets, Sequences
 
@@ -33,10 +39,19 @@ CONSTANTS Node,             \* node ids
           Pool,             \* the records that may arrive (any number of times, any order)
           AllowOverwrite    \* BOOLEAN: include the local overwrite API
 
-None == [id |-> "none", node |-> "none", ts |-> -1, kind |-> "none", forge |-> "none"]
+None == [id |-> "none", node |-> "none", ts |-> -1, kind |-> "none", addrs |-> -1, forge |-> "none"]
+
+AuthForges == {"none", "bad_sig", "wrong_signer", "tampered_ts", "addr_removed", "addr_added", "addr_changed"}
+WellFormed(r) ==
+    /\ r.addrs \in {0, 1}
+    /\ \/ r.kind = "auth" /\ r.forge \in AuthForges
+       \/ r.kind = "trusted" /\ r.forge \in {"none", "id_mismatch"}
+    /\ r.forge = "addr_removed" => r.addrs = 0
+    /\ r.forge \in {"addr_added", "addr_changed", "id_mismatch"} => r.addrs = 1
 
 \* AuthenticatedTransportInfo::verify addrs.rs:344-352 (signature over timestamp + addresses
-\* under the node id) / TrustedTransportInfo::verify addrs.rs:560-566 (every address names the node)
+\* under the node id - whatever the number of addresses) / TrustedTransportInfo::verify
+\* addrs.rs:560-566 (every address names the node; vacuous for an empty list)
 Authentic(r) == r.forge = "none"
 
 VARIABLES
@@ -138,4 +153,5 @@ TypeOK ==
     /\ book \in [Node -> Pool \cup {None}]
     /\ boot \in [Node -> BOOLEAN]
     /\ arrived \subseteq Pool /\ written \subseteq Pool
+    /\ \A r \in Pool : WellFormed(r)
 ===========================================================================
